@@ -6,6 +6,7 @@ import (
 	"go/constant"
 	"go/token"
 	"go/types"
+	"os"
 	"regexp"
 	"sort"
 	"strconv"
@@ -717,6 +718,14 @@ func uniqStrings(in []string) []string {
 
 // ---------------------------------------------------------------- R03.5
 
+// mergeReference: schema fields each merge function read from both operands on the reviewed tree.
+var mergeReference = map[string][]string{
+	"mergeProperties": {"Properties", "Required"},
+	"mergeSchemes": {"AdditionalProperties", "AllOf", "AnyOf", "Default", "DefaultSet", "Discriminator", "Enum", "ExclusiveMaximum", "ExclusiveMinimum",
+		"Format", "Item", "Items", "MaxItems", "MaxLength", "MaxProperties", "Maximum", "MinItems", "MinLength", "MinProperties", "Minimum", "MultipleOf",
+		"Nullable", "OneOf", "Pattern", "PatternProperties", "Properties", "Required", "Type", "UniqueItems"},
+}
+
 // checkMergeSymmetry: allOf merging takes two schemas; whatever field it reads from one it reads from the other.
 func checkMergeSymmetry(c *core.Ctx, prog *core.Prog) {
 	r := c.NewRule("R03.5", "S1", "allOf merging reads the same schema fields from both operands", 2)
@@ -753,6 +762,15 @@ func checkMergeSymmetry(c *core.Ctx, prog *core.Prog) {
 						reads[i][st.Field(x.Field).Name()] = true
 					case *ssa.Phi:
 						visit(x, depth+1)
+					case ssa.CallInstruction:
+						// handed to a helper (mergeEnums(s1, s2), mergeProperties(s1, s2)): follow into its parameter
+						if callee := x.Common().StaticCallee(); callee != nil && core.InModule(callee) && callee.Blocks != nil && callee != fn {
+							for ai, a := range x.Common().Args {
+								if a == v && ai < len(callee.Params) {
+									visit(callee.Params[ai], depth+1)
+								}
+							}
+						}
 					case *ssa.MakeClosure:
 						// captured by a closure: look at the free variable's uses
 						if g, ok := x.Fn.(*ssa.Function); ok {
@@ -802,6 +820,27 @@ func checkMergeSymmetry(c *core.Ctx, prog *core.Prog) {
 		}
 		sort.Strings(only0)
 		sort.Strings(only1)
+		var all []string
+		for f := range reads[0] {
+			all = append(all, f)
+		}
+		sort.Strings(all)
+		if os.Getenv("OGENVERIF_TRACE") != "" {
+			fmt.Fprintf(os.Stderr, "MERGEFIELDS\t%s\t%s\n", name, strings.Join(all, ","))
+		}
+		// the keyword fields confirmed on the reviewed tree are the reference: a merge that stops looking at one of
+		// them silently drops that keyword from allOf
+		var lost []string
+		for _, f := range mergeReference[name] {
+			if !reads[0][f] || !reads[1][f] {
+				lost = append(lost, f)
+			}
+		}
+		if len(lost) > 0 {
+			r.Fail("merge-dropped:"+name, c.Pos(fn.Pos()), fmt.Sprintf("%s no longer reads %v of its operands: that keyword of an allOf branch is ignored (e.g. `required` stated next to a $ref is lost and the member becomes optional)", name, lost))
+		} else if len(mergeReference[name]) > 0 {
+			r.Pass(fmt.Sprintf("%s: reads every reference keyword field (%d) from both operands", name, len(mergeReference[name])))
+		}
 		if len(only0)+len(only1) == 0 {
 			r.Pass(fmt.Sprintf("%s: %d fields read from each operand", name, len(reads[0])))
 		} else {
